@@ -5,7 +5,8 @@ import Modbus.Props.C13
 /-
 C04 — RTU ADU round trip for DECODED values (see Props/C05Dec.lean for the TCP side and for the
 motivation: a gateway decodes a PDU on one transport and re-encodes the value for another; decoded
-values need not be normal — odd byte counts, coil quantity = 8 × byte count, surplus payload bytes).
+values need not be normal — odd byte counts (quantity = byte count / 2; the decoded register payload holds
+the whole registers only), coil quantity = 8 × byte count, surplus payload bytes of a request).
 
 For EVERY byte string `b` and every value `v` with `Response.decode b = .ok v` / `Request.decode b = .ok v`:
 
@@ -60,6 +61,25 @@ theorem rsp_decoded_rtu_roundtrip_partial (b : Bytes) (v : Response) (h : Respon
   obtain ⟨out, h1, h2, h3, h4⟩ := C04.rtu_rsp_encode_decode slave v v' buf ⟨he, Response.image_pos v he⟩ hl
     (rsp_image_complete v hk he) (exc_decode_err_of_lt _ c h0 hlt) hdec
   exact ⟨_, out, v', h1, Response.pduLen_eq v he, rfl, h2, h3, h4, hs⟩
+
+/-- … and it is the very same value that comes back: a decoded response holds whole registers / whole
+    bytes only, so its image decodes to itself (`Response.Decoded.redecode_exact`) -/
+theorem rsp_decoded_rtu_roundtrip_exact_partial (b : Bytes) (v : Response) (h : Response.decode b = .ok v)
+    (hk : v.Frameable)
+    (slave : UInt8) (buf : Bytes) (hl : v.image.length + 3 ≤ buf.length) :
+    Response.decode v.image = .ok v ∧
+    ∃ n out, Rtu.serverEncodeResponse slave (.ok v) buf = .ok (n, out) ∧
+      n = v.image.length + 3 ∧
+      out.take n = Spec.rtuFrame slave v.image ∧
+      Rtu.clientDecodeResponse (out.take n) = .ok (some (slave, .ok v)) ∧
+      Rtu.clientDecodeResponse out = .ok (some (slave, .ok v)) := by
+  have hd := Response.decode_inv h
+  have he := hd.encodable
+  obtain ⟨c, h0, hlt⟩ := rsp_image_first_lt v hk
+  have hdec := hd.redecode_exact
+  obtain ⟨out, h1, h2, h3, h4⟩ := C04.rtu_rsp_encode_decode slave v v buf ⟨he, Response.image_pos v he⟩ hl
+    (rsp_image_complete v hk he) (exc_decode_err_of_lt _ c h0 hlt) hdec
+  exact ⟨hdec, _, out, h1, rfl, h2, h3, h4⟩
 
 /-- a 260-byte buffer is always large enough -/
 theorem rsp_decoded_rtu_roundtrip_260_partial (b : Bytes) (v : Response) (h : Response.decode b = .ok v)
@@ -127,15 +147,15 @@ theorem rsp_decoded_rtu_roundtrip_fails :
   cases hd
 
 /-! non-vacuity: the odd-byte-count register response -/
-example : Response.decode [0x03, 0x03, 0xAB, 0xCD, 0xEF] = .ok (.readHoldingRegisters ⟨[0xAB, 0xCD, 0xEF], 1⟩) ∧
-    (Response.readHoldingRegisters ⟨[0xAB, 0xCD, 0xEF], 1⟩).Frameable := ⟨by decide +kernel, trivial⟩
-example : ∃ n out v', Rtu.serverEncodeResponse 0x11 (.ok (.readHoldingRegisters ⟨[0xAB, 0xCD, 0xEF], 1⟩))
+example : Response.decode [0x03, 0x03, 0xAB, 0xCD, 0xEF] = .ok (.readHoldingRegisters ⟨[0xAB, 0xCD], 1⟩) ∧
+    (Response.readHoldingRegisters ⟨[0xAB, 0xCD], 1⟩).Frameable := ⟨by decide +kernel, trivial⟩
+example : ∃ n out v', Rtu.serverEncodeResponse 0x11 (.ok (.readHoldingRegisters ⟨[0xAB, 0xCD], 1⟩))
       (List.replicate 10 0x55) = .ok (n, out) ∧ n = 7 ∧
     out.take n = Spec.rtuFrame 0x11 [0x03, 0x02, 0xAB, 0xCD] ∧
     Rtu.clientDecodeResponse (out.take n) = .ok (some (0x11, .ok v')) ∧
     v'.sem = some (.readHoldingRegisters [0xABCD]) := by
   obtain ⟨n, out, v', h1, _, h3, h4, h5, _, h7⟩ := rsp_decoded_rtu_roundtrip_partial
-    [0x03, 0x03, 0xAB, 0xCD, 0xEF] (.readHoldingRegisters ⟨[0xAB, 0xCD, 0xEF], 1⟩) (by decide +kernel) trivial
+    [0x03, 0x03, 0xAB, 0xCD, 0xEF] (.readHoldingRegisters ⟨[0xAB, 0xCD], 1⟩) (by decide +kernel) trivial
     0x11 (List.replicate 10 0x55) (by decide +kernel)
   refine ⟨n, out, v', h1, by rw [h3]; decide +kernel, ?_, h5, ?_⟩
   · rw [h4]; decide +kernel
